@@ -92,7 +92,7 @@ def exec_check(I, scope, outcome):
 
 
 def units(tier):
-    return ['from_file', 'to_file', 'merge_done', 'read_env', 'write_env', 'run_command', 'native']
+    return ['from_file', 'to_file', 'merge_done', 'read_env', 'write_env', 'run_command', 'build_graphs', 'native']
 
 
 def run_unit(unit, tier, seed, known):
@@ -113,6 +113,10 @@ def run_unit(unit, tier, seed, known):
         from pyvc.verify import verify_function
         res = verify_function(exec_world(), c_execute(), setup=exec_setup, extra_check=exec_check)
         return {'functions': [prop.discharge(res, tier, ID, lambda m, r: {'note': 'see model text'}, eu._replay_persist)]}
+    if unit == 'build_graphs':
+        # run_command takes "the nodes of the hard graph" for "the tasks of the job": build_graphs puts every collected task into both graphs
+        from . import graphs_units as gu
+        return gu.unit_build_graphs(tier, ID, eu._replay_persist)
     if unit == 'native':
         return {'bounded': [pn.sweep(tier, seed)]}
     raise KeyError(unit)
